@@ -80,7 +80,7 @@ MInit(start) ==
   /\ ret = NoRet /\ fr = <<Fr(0)>> /\ memo = <<>> /\ seeds = <<>> /\ nmiss = 0 /\ done = FALSE /\ steps = 0
 
 \* ---------------------------------------------------------------- leaves
-LeafOps == {"tok", "pat", "dot", "const", "constbad", "void", "fail", "eof", "cut", "emptyclosure", "meta"}
+LeafOps == {"tok", "pat", "opat", "dot", "const", "constbad", "void", "fail", "eof", "cut", "emptyclosure", "meta"}
 Leaf ==
   /\ ret = NoRet /\ Running(LeafOps)
   /\ LET e == TopK.e  p0 == Top(fr).pos  p == Skip(p0) IN
@@ -90,6 +90,9 @@ Leaf ==
        [] e.op = "pat" -> LET n == ClassRun(p0, e.cls, IF e.many THEN N ELSE 1) IN
                           IF n < e.min THEN fr' = fr /\ ret' = RetKO /\ memo' = memo
                           ELSE fr' = AppendNode(Goto(fr, p0 + n), Str(SubText(p0, p0 + n))) /\ ret' = RetOK(Str(SubText(p0, p0 + n))) /\ memo' = memo
+       [] e.op = "opat" -> LET m == OPat(e, p0) IN
+                           IF m.n < 0 THEN fr' = fr /\ ret' = RetKO /\ memo' = memo
+                           ELSE fr' = AppendNode(Goto(fr, p0 + m.n), m.v) /\ ret' = RetOK(m.v) /\ memo' = memo
        [] e.op = "dot" -> IF p0 < N THEN fr' = AppendNode(Goto(fr, p0 + 1), Str(<<Inp[p0 + 1]>>)) /\ ret' = RetOK(Str(<<Inp[p0 + 1]>>)) /\ memo' = memo
                           ELSE fr' = fr /\ ret' = RetKO /\ memo' = memo
        [] e.op = "meta" -> LET r == MetaMatch(e.kind, p) IN
@@ -254,6 +257,9 @@ CallEnter ==
      ELSE
      LET p == IF RuleRec(name).tokn THEN Top(fr).pos ELSE Skip(Top(fr).pos)
          key == <<p, name>>  m == MemoGet(key)  sd == SeedGetM(key) IN
+     IF RuleRec(name).lrec /\ ~Cfg.lr                                  \* LrDisabled: recursive_call raises 'Left recursion detected'
+     THEN fr' = Goto(fr, p) /\ ret' = RetKO /\ ctl' = PopK /\ UNCHANGED <<memo, seeds, nmiss>>
+     ELSE
      IF IsLrec(name)
      THEN \/ /\ sd.k = "ok"                                           \* LrSeedHit
              /\ fr' = AppendNode(Goto(fr, sd.newpos), sd.node) /\ ret' = RetOK(sd.node) /\ ctl' = PopK
@@ -276,14 +282,20 @@ CallEnter ==
   /\ UNCHANGED done
 
 \* body finished: fold, keyword check, action, memoize (rule_call); then goto/append on the caller frame (call)
-BodyValue(name, f) == LET node == FoldFr(f) IN
-                      IF RuleRec(name).isname /\ IsKeyword(node) THEN [k |-> "ko"]
-                      ELSE LET a == Act(name, node) IN
-                           IF a.k = "ok" THEN [k |-> "ok", node |-> a.v] ELSE [k |-> "ko"]     \* failsem -> failure ("raise" is not run here)
-CallExit ==
+\* `ov` (trace mode with an arbitrary semantics object): the action's outcome is taken from the recorded "act" event instead of the
+\* action family; NoOv everywhere else
+NoOv == [use |-> FALSE]
+BodyValueW(name, f, ov) ==
+    LET node == FoldFr(f) IN
+    IF RuleRec(name).isname /\ IsKeyword(node) THEN [k |-> "ko"]
+    ELSE IF ov.use THEN (IF ov.ok THEN [k |-> "ok", node |-> ov.v] ELSE [k |-> "ko"])
+    ELSE LET a == Act(name, node) IN
+         IF a.k = "ok" THEN [k |-> "ok", node |-> a.v] ELSE [k |-> "ko"]     \* failsem -> failure ("raise" is not run here)
+BodyValue(name, f) == BodyValueW(name, f, NoOv)
+CallExitW(ov) ==
   /\ Running({"call"}) /\ TopK.i = 1 /\ ret # NoRet
   /\ LET name == TopK.e.name  key == <<TopK.p0, name>>  base == SubSeq(fr, 1, Len(fr) - 2)
-         bv == IF ret.k = "ok" THEN BodyValue(name, Top(fr)) ELSE [k |-> "ko"] IN
+         bv == IF ret.k = "ok" THEN BodyValueW(name, Top(fr), ov) ELSE [k |-> "ko"] IN
      IF bv.k = "ok"
      THEN /\ fr' = AppendNode(Goto(base, Top(fr).pos), bv.node)
           /\ memo' = IF Memoizable(name) THEN MemoPut(key, [k |-> "ok", node |-> bv.node, newpos |-> Top(fr).pos, guard |-> FALSE]) ELSE MemoDrop(key)
@@ -294,10 +306,10 @@ CallExit ==
   /\ ctl' = PopK /\ UNCHANGED <<seeds, nmiss, done>>
 
 \* one growth round of recursive_call finished (phase 3)
-GrowStep ==
+GrowStepW(ov) ==
   /\ Running({"call"}) /\ TopK.i = 3 /\ ret # NoRet
   /\ LET name == TopK.e.name  key == <<TopK.p0, name>>  base == SubSeq(fr, 1, Len(fr) - 2)
-         bv == IF ret.k = "ok" THEN BodyValue(name, Top(fr)) ELSE [k |-> "ko"]
+         bv == IF ret.k = "ok" THEN BodyValueW(name, Top(fr), ov) ELSE [k |-> "ko"]
          newpos == Top(fr).pos
          grows == bv.k = "ok" /\ newpos + 1 > TopK.lp IN
      IF grows
@@ -311,6 +323,9 @@ GrowStep ==
           /\ IF sd.k = "ok" THEN fr' = AppendNode(Goto(base, sd.newpos), sd.node) /\ ret' = RetOK(sd.node)
              ELSE fr' = Goto(base, TopK.p0) /\ ret' = RetKO
   /\ UNCHANGED <<nmiss, done>>
+
+CallExit == CallExitW(NoOv)
+GrowStep == GrowStepW(NoOv)
 
 Finish == /\ Len(ctl) = 0 /\ ~done /\ done' = TRUE /\ UNCHANGED <<ctl, ret, fr, memo, seeds, nmiss>>
 
